@@ -276,7 +276,9 @@ void EntityManager::markDirty(Entity entity, ComponentId component_id) noexcept 
 void EntityManager::onLock() {
     MUSTACHE_PROFILER_BLOCK_LVL_0(__FUNCTION__ );
 
-    const auto thread_count = world_.dispatcher().maxThreadCount();
+    // one command buffer per dispatcher thread id: 0 for the calling thread, 1..threadCount() for the workers
+    // (the number of hardware cores says nothing about how many workers the dispatcher was given)
+    const auto thread_count = world_.dispatcher().threadCount() + 1u;
     temporal_storages_.resize(thread_count);
     next_entity_id_ = static_cast<uint32_t >(entities_.size());
 }
